@@ -207,8 +207,15 @@ func c03Run(r *sim.Run, tp *sim.Tape, randomContent bool) *c03Obs {
 			if c.tt == pb.TransportType_Prefix {
 				tagLen = 64
 			}
-			pos := len(fl) - tagLen + (flipBit/8)%tagLen
-			fl[pos] ^= 1 << (flipBit % 8)
+			fb := flipBit % (tagLen * 8)
+			if tagLen == 64 && fb/8 == 31 && fb%8 >= 6 {
+				// the two high bits of the Elligator representative are random padding that the
+				// station masks off: flipping them leaves the tag valid, so that would not be a
+				// connection "that never presents a valid tag"
+				fb -= 2
+			}
+			pos := len(fl) - tagLen + fb/8
+			fl[pos] ^= 1 << (fb % 8)
 			content = append(fl, garbage[:length]...)
 			r.Probe("bitflipped_genuine_flight")
 		default:
